@@ -29,6 +29,6 @@ def fixture_ctx(fname, prop='FIXTURE'):
     ctx.repo = MiniRepo({'fixture': path})
     ctx.res = Resolver(ctx.repo)
     ctx._cg, ctx._cfgs = None, {}
-    ctx.obligations, ctx.floors, ctx.notes, ctx.consulted = [], {}, [], set()
+    ctx.obligations, ctx.floors, ctx.notes, ctx.consulted, ctx.errors = [], {}, [], set(), []
     ctx.paths_enumerated = ctx.path_evals = 0
     return ctx
